@@ -60,3 +60,53 @@ class ClipIdentityInside(Lemma):
 
         x, lo, hi = z3.Reals("x lo hi")
         return [(self.name, [lo <= x, x <= hi], clip_term(x, lo, hi) == x)]
+
+
+class LerpBound(Lemma):
+    """0 <= w <= 1 and u, v in [lo, hi]  =>  w*u + (1-w)*v in [lo, hi] (used three times nested for trilinear convexity)."""
+
+    name = "lerp bound (convex combination of two values stays in their range)"
+    properties = ("C02", "C16")
+
+    def formula(self):
+        from .roms_sample import lerp_inst
+
+        w, u, v, lo, hi = z3.Reals("w u v lo hi")
+        return [(self.name, [], lerp_inst(w, u, v, lo, hi))]
+
+
+class NestedLerpIdentity(Lemma):
+    """The trilinear formula equals three nested linear interpolations (polynomial identity)."""
+
+    name = "trilinear == nested lerps (polynomial identity)"
+    properties = ("C02",)
+
+    def formula(self):
+        p, q, w = z3.Reals("p q w")
+        f = [z3.Real(f"f{i}") for i in range(8)]
+        col = lambda a, b: w * a + (1 - w) * b  # noqa: E731
+        c00, c10, c01, c11 = col(f[0], f[4]), col(f[1], f[5]), col(f[2], f[6]), col(f[3], f[7])
+        direct = (1 - p) * (1 - q) * c00 + p * (1 - q) * c10 + (1 - p) * q * c01 + p * q * c11
+        x0 = (1 - p) * c00 + (1 - (1 - p)) * c10
+        x1 = (1 - p) * c01 + (1 - (1 - p)) * c11
+        nested = (1 - q) * x0 + (1 - (1 - q)) * x1
+        return [(self.name, [], nested == direct)]
+
+
+class SubgridIndependence(Lemma):
+    """The staggered sample position and cell do not depend on the loaded sub-rectangle:
+    floor(x - i0 + 1/2) + i0 - 1 == floor(x + 1/2) - 1 (global u-point index) and the local fraction is the global one."""
+
+    name = "subgrid independence of the u-/v-point bracketing"
+    properties = ("C02",)
+
+    def formula(self):
+        x = z3.Real("x")
+        i0 = z3.Int("i0")
+        loc = x - z3.ToReal(i0) + z3.RealVal("1/2")
+        glob = x + z3.RealVal("1/2")
+        return [
+            (self.name + ": index", [], z3.ToInt(loc) + i0 == z3.ToInt(glob)),
+            (self.name + ": fraction", [], loc - z3.ToReal(z3.ToInt(loc)) == glob - z3.ToReal(z3.ToInt(glob))),
+            (self.name + ": nearest cell", [x - z3.ToReal(i0) >= 0], z3.ToInt(x - z3.ToReal(i0) + z3.RealVal("1/2")) + i0 == z3.ToInt(x + z3.RealVal("1/2"))),
+        ]
